@@ -30,7 +30,7 @@ set_option linter.all false
 
 open EPV EPV.Gen EPV.Model EPV.Spec.Riemann EPV.Riem
 
-namespace EPV.C07
+namespace EPV.C07.Riemann
 
 /-- `shock_jump(p₀, ρ₀, γ, px, ρ)` as a function of the trial density -/
 noncomputable def shockJump (px p ρ γ r : ℝ) : ℝ :=
@@ -70,7 +70,162 @@ theorem rhoShock_ne {px p ρ γ : ℝ} (hp : 0 < p) (hρ : 0 < ρ) (hγ : 1 < γ
   · exact hρ.ne' h1
   · exact h (by linarith)
 
+
+
+/-- the two relative speeds inside `star_velocity`, at the Hugoniot density: m/ρ₀ and m/ρ₁ -/
+theorem star_speeds {px p ρ γ : ℝ} (hp : 0 < p) (hρ : 0 < ρ) (hγ : 1 < γ) (hpx : p < px) :
+    Real.sqrt (rhoShock px p ρ γ / ρ * (px - p) / (rhoShock px p ρ γ - ρ)) = mflux px p ρ γ / ρ ∧
+    Real.sqrt (ρ / rhoShock px p ρ γ * (p - px) / (ρ - rhoShock px p ρ γ)) = mflux px p ρ γ / rhoShock px p ρ γ := by
+  have hN := NN_pos hp hγ (lt_trans hp hpx).le
+  have hm := mflux_pos hρ hN
+  have hm2 := mflux_sq hρ hN
+  generalize mflux px p ρ γ = m at *
+  obtain ⟨d, hd0, rfl⟩ : ∃ d, 0 < d ∧ px = p + d := ⟨px - p, by linarith, by ring⟩
+  obtain ⟨g, hg, rfl⟩ : ∃ g, 0 < g ∧ γ = 1 + g := ⟨γ - 1, by linarith, by ring⟩
+  have e1 : (1 + g - 1) = g := by ring
+  have e2 : (1 + g + 1) = g + 2 := by ring
+  have e3 : p + d - p = d := by ring
+  have e4 : p - (p + d) = -d := by ring
+  have hr : rhoShock (p + d) p ρ (1 + g) = ρ * (p * g + (p + d) * (g + 2)) / ((p + d) * g + p * (g + 2)) := by
+    rw [rhoShock_eq, e1, e2]
+  have hr0 : 0 < rhoShock (p + d) p ρ (1 + g) := by rw [hr]; positivity
+  have hD : 0 < (p + d) * g + p * (g + 2) := by positivity
+  have hdiff : rhoShock (p + d) p ρ (1 + g) - ρ = 2 * ρ * d / ((p + d) * g + p * (g + 2)) := by
+    rw [hr]; field_simp; ring
+  have hdiff' : ρ - rhoShock (p + d) p ρ (1 + g) = -(2 * ρ * d / ((p + d) * g + p * (g + 2))) := by
+    rw [← hdiff]; ring
+  unfold NN at hm2; rw [e1, e2] at hm2
+  rw [e3, e4, hdiff, hdiff']
+  constructor
+  · rw [show rhoShock (p + d) p ρ (1 + g) / ρ * d / (2 * ρ * d / ((p + d) * g + p * (g + 2))) = (m / ρ) ^ 2 by
+      rw [div_pow, hm2, hr]; field_simp; ring]
+    exact Real.sqrt_sq (by positivity)
+  · rw [show ρ / rhoShock (p + d) p ρ (1 + g) * -d / -(2 * ρ * d / ((p + d) * g + p * (g + 2)))
+        = (m / rhoShock (p + d) p ρ (1 + g)) ^ 2 by
+      rw [div_pow, hm2, hr]; field_simp; ring]
+    exact Real.sqrt_sq (by positivity)
+
+/-- the arguments `match_shocks` passes to `star_velocity` at the Hugoniot density -/
+noncomputable def starArgs (q : Prob) (px p ρ u γ : ℝ) : RiemStarVelIG.P :=
+  { pk := p, rk := ρ, uk := u, pz := px, rz := rhoShock px p ρ γ, pl := q.pl, rl := q.rl, ul := q.ul }
+
+/-- `star_velocity` at the Hugoniot density is the ideal-gas solver's u₀ ∓ `shock(px, p₀, ρ₀, 0, γ)`
+(- on the left state, + otherwise: the sign of the `==` side detection) -/
+theorem star_velocity_partial (q : Prob) {px p ρ u γ : ℝ} (hp : 0 < p) (hρ : 0 < ρ) (hγ : 1 < γ) (hpx : p < px) :
+    RiemStarVelIG.u (starArgs q px p ρ u γ) = u + -fanSgn q p ρ u * shock px p ρ 0 γ := by
+  obtain ⟨w0, w1⟩ := star_speeds hp hρ hγ hpx
+  have hpx0 : 0 < px := lt_trans hp hpx
+  have hN := NN_pos hp hγ hpx0.le
+  have hm := mflux_pos hρ hN
+  have hm2 := mflux_sq hρ hN
+  have hD : 0 < px * (γ - 1) + p * (γ + 1) := by nlinarith
+  have hNp : 0 < p * (γ - 1) + px * (γ + 1) := by nlinarith
+  have hr0 : 0 < rhoShock px p ρ γ := by rw [rhoShock_eq]; positivity
+  have key : mflux px p ρ γ / ρ - mflux px p ρ γ / rhoShock px p ρ γ = (px - p) / mflux px p ρ γ := by
+    have hr : rhoShock px p ρ γ = ρ * (p * (γ - 1) + px * (γ + 1)) / (px * (γ - 1) + p * (γ + 1)) := rhoShock_eq ..
+    unfold NN at hm2
+    generalize mflux px p ρ γ = m at *
+    rw [hr]; field_simp
+    nlinarith [hm2]
+  rw [shock_mflux hρ (by linarith) hN, ← key, ← w0, ← w1]
+  by_cases h0 : p = q.pl
+  · by_cases h1 : ρ = q.rl
+    · by_cases h2 : u = q.ul
+      · have c0 : RiemStarVelIG.c0 (starArgs q px p ρ u γ) := h0
+        have c1 : RiemStarVelIG.c1 (starArgs q px p ρ u γ) := h1
+        have c2 : RiemStarVelIG.c2 (starArgs q px p ρ u γ) := h2
+        have hs : fanSgn q p ρ u = 1 := by simp [fanSgn, h0, h1, h2]
+        simp only [epv_tree, if_pos c0, if_pos c1, if_pos c2]
+        simp only [epv_leaf, starArgs, hs]; ring
+      · have c0 : RiemStarVelIG.c0 (starArgs q px p ρ u γ) := h0
+        have c1 : RiemStarVelIG.c1 (starArgs q px p ρ u γ) := h1
+        have c2 : ¬ RiemStarVelIG.c2 (starArgs q px p ρ u γ) := h2
+        have hs : fanSgn q p ρ u = -1 := by simp [fanSgn, h0, h1, h2]
+        simp only [epv_tree, if_pos c0, if_pos c1, if_neg c2]
+        simp only [epv_leaf, starArgs, hs]; ring
+    · have c0 : RiemStarVelIG.c0 (starArgs q px p ρ u γ) := h0
+      have c1 : ¬ RiemStarVelIG.c1 (starArgs q px p ρ u γ) := h1
+      have hs : fanSgn q p ρ u = -1 := by simp [fanSgn, h0, h1]
+      simp only [epv_tree, if_pos c0, if_neg c1]
+      simp only [epv_leaf, starArgs, hs]; ring
+  · have c0 : ¬ RiemStarVelIG.c0 (starArgs q px p ρ u γ) := h0
+    have hs : fanSgn q p ρ u = -1 := by simp [fanSgn, h0]
+    simp only [epv_tree, if_neg c0]
+    simp only [epv_leaf, starArgs, hs]; ring
+
+theorem starvel_leaves : RiemStarVelIG.okLeaves = [0, 1, 2, 3] := rfl
+
+/-! ### the closed-form rarefaction solves `drdp_dudp` -/
+
+/-- the right-hand side of the ODE system at pressure `px` on the closed-form isentrope through
+(p, ρ): `drdp_dudp(px, [rho_star_rarefaction(px), ·], γ, ws)` -/
+noncomputable def odeArgs (px p ρ γ ws : ℝ) : RiemOdeIG.P :=
+  { pz := px, rz := rhoRare px p ρ γ, gk := γ, ws := ws }
+
+/-- dρ/dp = 1/a² along the closed-form isentrope (generated certificate of `rho_star_rarefaction`),
+and ρ(p₀) = ρ₀ -/
+theorem rarefaction_ode_density_partial {px p ρ γ : ℝ} (hp : 0 < p) (hρ : 0 < ρ) (hγ : 1 < γ) (hpx : 0 < px) (ws : ℝ) :
+    HasDerivAt (fun x => rhoRare x p ρ γ) (RiemOdeIG.drdp (odeArgs px p ρ γ ws)) px ∧ rhoRare p p ρ γ = ρ := by
+  have hz : 0 < px / p := by positivity
+  have hγ0 : 0 < γ := by linarith
+  constructor
+  · have cert := RiemRhoRare.L0.rho_hasDerivAt_px { pk := p, rk := ρ, gk := γ } px hz
+    have e : (fun x => rhoRare x p ρ γ) = fun x => RiemRhoRare.L0.rho { pk := p, rk := ρ, gk := γ } x := by
+      funext x; simp only [rhoRare, epv_tree]
+    rw [e]
+    refine cert.congr_deriv ?_
+    have hB : 0 < (px / p) ^ (1 / γ) := Real.rpow_pos_of_pos hz _
+    simp only [odeArgs, rhoRare_eq, epv_tree, epv_leaf, epv_deriv]
+    rw [Real.sq_sqrt (by positivity)]
+    generalize (px / p) ^ (1 / γ) = B at *
+    field_simp
+  · rw [rhoRare_eq, div_self hp.ne', Real.one_rpow, mul_one]
+
+/-- du/dp = ws/(ρ a) along the closed-form wave function: ws = -1 for the left wave
+(`rarefaction(px, p, ρ, u, γ)`), and u(p₀) = u₀ -/
+theorem rarefaction_ode_velocity_partial {px p ρ γ : ℝ} (u : ℝ) (hp : 0 < p) (hρ : 0 < ρ) (hγ : 1 < γ) (hpx : 0 < px) :
+    HasDerivAt (fun x => rare x p ρ u γ) (RiemOdeIG.dudp (odeArgs px p ρ γ (-1))) px ∧ rare p p ρ u γ = u := by
+  have hz : 0 < px / p := by positivity
+  have hγ0 : 0 < γ := by linarith
+  constructor
+  · have cert := RiemRare.L0.du_hasDerivAt_px { pk := p, rk := ρ, uk := u, gk := γ } px hz
+    have e : (fun x => rare x p ρ u γ) = fun x => RiemRare.L0.du { pk := p, rk := ρ, uk := u, gk := γ } x := by
+      funext x; simp only [rare, epv_tree]
+    rw [e]
+    refine cert.congr_deriv ?_
+    have hs := sound_on_isentrope hp hρ hγ hpx
+    rw [sound_eq, sound_eq] at hs
+    have ha : 0 < Real.sqrt (γ * p / ρ) := Real.sqrt_pos.mpr (by positivity)
+    have ha2 : Real.sqrt (γ * p / ρ) ^ 2 = γ * p / ρ := Real.sq_sqrt (by positivity)
+    have hA : 0 < (px / p) ^ ((γ - 1) / 2 / γ) := Real.rpow_pos_of_pos hz _
+    have hB : 0 < (px / p) ^ (1 / γ) := Real.rpow_pos_of_pos hz _
+    have key : (px / p) ^ ((γ - 1) / 2 / γ) * (px / p) ^ ((γ - 1) / 2 / γ) * (px / p) ^ (1 / γ) = px / p := by
+      rw [← Real.rpow_add hz, ← Real.rpow_add hz]
+      have : (γ - 1) / 2 / γ + (γ - 1) / 2 / γ + 1 / γ = 1 := by field_simp; ring
+      rw [this, Real.rpow_one]
+    simp only [odeArgs, epv_tree, epv_leaf, epv_deriv]
+    rw [hs]
+    simp only [rhoRare_eq]
+    generalize Real.sqrt (γ * p / ρ) = a at *
+    generalize (px / p) ^ ((γ - 1) / 2 / γ) = A at *
+    generalize (px / p) ^ (1 / γ) = B at *
+    have hpx' : px = p * (A * A * B) := by rw [key]; field_simp
+    have hρ' : ρ = γ * p / a ^ 2 := by rw [ha2]; field_simp
+    have hg1 : γ - 1 ≠ 0 := by linarith
+    rw [hpx', hρ']
+    field_simp
+  · rw [rare_eq, div_self hp.ne', Real.one_rpow]; ring
+
+/-- the right wave: the ideal-gas solver's u = u₀ - rarefaction(px, p, ρ, 0, γ) satisfies du/dp = +1/(ρ a) -/
+theorem rarefaction_ode_velocity_right_partial {px p ρ γ : ℝ} (u : ℝ) (hp : 0 < p) (hρ : 0 < ρ) (hγ : 1 < γ)
+    (hpx : 0 < px) :
+    HasDerivAt (fun x => u + -1 * rare x p ρ 0 γ) (RiemOdeIG.dudp (odeArgs px p ρ γ 1)) px := by
+  have h := (rarefaction_ode_velocity_partial 0 hp hρ hγ hpx).1
+  have h2 := (h.const_mul (-1 : ℝ)).const_add u
+  refine h2.congr_deriv ?_
+  simp only [odeArgs, epv_tree, epv_leaf]; ring
+
 /-- non-vacuity -/
 example : (0:ℝ) < 1 ∧ (0:ℝ) < 1 ∧ (1:ℝ) < 7/5 ∧ (0:ℝ) < 3/10 := by norm_num
 
-end EPV.C07
+end EPV.C07.Riemann
